@@ -120,6 +120,7 @@ pub fn run(seed: u64, thorough: bool, out_dir: &std::path::Path, scratch: &std::
         let mut lrng = Rng(frng.0 ^ 0x11c);
         let r = std::panic::catch_unwind(std::panic::AssertUnwindSafe(|| {
             let mut h = Hist::new(cfg.clone(), scratch.join(format!("n{hi}")), false);
+            h.vary_locks = true;
             let mut steps: Vec<(u64, Vec<NDig>, Vec<NDig>, Vec<NDig>)> = vec![];
             // BlockExtensionVerifier's verdicts (Chain/Extension.v recomputes them): (root, extra fields, extension, accepted)
             let mut ext_cases: Vec<(Vec<u8>, u64, Option<Vec<u8>>, bool)> = vec![];
@@ -251,7 +252,13 @@ pub fn run(seed: u64, thorough: bool, out_dir: &std::path::Path, scratch: &std::
                     }
                     // 5. block filters: built lazily, sometimes only every other change
                     if frng.chance(2, 3) {
-                        BlockFilter::new(node.shared.clone()).verif_build_filter_data();
+                        // ONE filter service per node process, as in the real node: whatever it remembers between two
+                        // runs (and across reorganisations) is part of what is checked
+                        {
+                            let mut slot = h.node_bound.borrow_mut();
+                            if slot.is_none() { *slot = Some(Box::new(BlockFilter::new(node.shared.clone()))); *stats.entry("filter_services_started".into()).or_default() += 1; }
+                            slot.as_ref().unwrap().downcast_ref::<BlockFilter>().expect("block filter service").verif_build_filter_data();
+                        }
                         let store = node.shared.store();
                         let mut parent_fh = Byte32::zero();
                         for b in &main {
@@ -312,7 +319,23 @@ pub fn run(seed: u64, thorough: bool, out_dir: &std::path::Path, scratch: &std::
                     }
                 };
                 for _ in 0..nsteps {
-                    if let Err(e) = h.random_step(&mut rng, &mut obs) {
+                    // directed: leave the last j blocks, rebuild the chain to the SAME height with other blocks, then go back to
+                    // the branch left before, extended by one block — the first block to build then sits exactly one above the
+                    // block built last, which lies on the other branch (a service that remembers "the block built last" by
+                    // number must not chain from it)
+                    let tipn = h.node().tip().number();
+                    let r = if tipn >= 3 && rng.chance(1, 6) {
+                        let j = rng.range(1, 2);
+                        *h.stats.entry("same_height_switch_back_steps".into()).or_default() += 1;
+                        (|| -> Result<(), String> {
+                            h.truncate(tipn - j, &mut obs)?;
+                            for _ in 0..j { h.extend(&mut rng, &mut obs)?; }
+                            h.revive(&mut rng, &mut obs)
+                        })()
+                    } else {
+                        h.random_step(&mut rng, &mut obs)
+                    };
+                    if let Err(e) = r {
                         viol.push(json!({"what": e, "detail": {"history": h.jops}}));
                         break;
                     }
